@@ -72,6 +72,7 @@ def gen(d, tier):
     def fresh():
         counter[0] += 1
         return "m%d" % counter[0]
+    fresh_out = set()       # objects moved out of a root in the current window: not moved back in before the next quiet point
     guard = 0
     while done < n and guard < 80:
         guard += 1
@@ -86,9 +87,10 @@ def gen(d, tier):
         elif k == "settle":
             acts.append(["settle"])
             world.settle()
+            fresh_out.clear()
         elif k == "movein":
             news = [p for p in world.new_paths(s) if p.count("/") <= 2]
-            cands = [(p, v) for p, v in outside[s].items()]
+            cands = [(p, v) for p, v in outside[s].items() if p not in fresh_out]
             if not news or not cands:
                 continue
             src, v = d.choice(sorted(cands, key=lambda x: x[0]))
@@ -133,6 +135,7 @@ def gen(d, tier):
             world.ever_deleted[0] |= gone
             world.ever_deleted[1] |= gone
             acts.append(["u", s, "rename", p, "!" + dst])
+            fresh_out.add(dst)
             done += 1
         elif k == "outside":
             files = sorted(p for p, v in outside[s].items() if not isinstance(v, tuple))
@@ -156,6 +159,8 @@ def gen(d, tier):
                 q = d.choice((roots[s] + "X", roots[s] + ".bak", "/other")) + "/" + fresh()
                 acts.append(["u", s, "rename", "!" + p, "!" + q])
                 outside[s][q] = outside[s].pop(p)
+                if p in fresh_out:
+                    fresh_out.add(q)
         elif k == "declined":
             # private objects under the declined folder: never synced, never touched
             zs = world.__dict__.setdefault("zmodel", [dict(), dict()])[s]
